@@ -112,6 +112,12 @@ def rand_history(rng):
     vtags = [st[1] for st in steps if st[0] in ("tag", "atag") and st[1] not in branches and "/" not in st[1]]
     if vtags and rng.random() < 0.25:
         steps.append(("branchat", rng.choice(vtags)))
+    # a work-tree file named exactly like one of the version tags, committed or untracked (a bare `<tag>` argument of a git command is then
+    # "ambiguous: both revision and filename")
+    ftags = [x for x in vtags if x not in (".", "..")]
+    if ftags and rng.random() < 0.2:
+        nm = rng.choice(ftags)
+        steps.append(("commitfile", nm, t + 11) if rng.random() < 0.5 else ("dirty", "untracked_named", nm))
     if rng.random() < 0.4:
         steps.append(("dirty", rng.choice(["untracked", "modified", "staged", "index_only_mod", "index_only_add", "deleted", "staged_delete"])))
     if rng.random() < 0.1:
@@ -339,7 +345,7 @@ def run_check(tier, seed):
 
 
 RULE = ("random commit DAGs built with the system git from commit / branch / checkout / merge / lightweight and annotated tag (semver, pep440, non-version and branch-named tags, "
-        "several per commit, tags on commits unreachable from HEAD) / detach / dirty (untracked, modified, staged) / ignored-file steps with increasing, equal or skewed commit "
+        "several per commit, tags on commits unreachable from HEAD) / detach / dirty (untracked, modified, staged) / work-tree files named like a tag / ignored-file steps with increasing, equal or skewed commit "
         "times, plus the standard repository states; each repository is read with git plumbing (log --topo-order with parents, for-each-ref, symbolic-ref, status) and "
         "`zerv version -C <repo> --output-format zerv` under each input format is judged (a) by an independent Python oracle of the property text (reachability sets, nearest valid "
         "tag, highest version by the Python SemVer / PEP 440 references, distance = |anc(HEAD) - anc(tagged)|, dirty, branch, hashes, times, no-tag refusal) and (b) against the "
